@@ -1,4 +1,6 @@
 """C35 Protocol messages round-trip and match git's encoding (DESIGN.md §4.C35)."""
+import hashlib
+import json
 import os
 import subprocess
 from vf.core import Suite, coq_hex, coq_list, coq_N, coq_Z, coq_bool, coq_opt
@@ -8,28 +10,51 @@ from props.C34 import rchunks, ref_read, coq_ns
 ID = "C35"
 THEOREMS = [
     "C35_caps_roundtrip", "C35_hash_roundtrip", "C35_report_roundtrip",
-    "C35_shupd_sha256_refuted", "C35_shupd_roundtrip_partial", "C35_uphav_roundtrip",
+    "C35_shupd_roundtrip", "C35_uphav_roundtrip",
     "C35_pushopts_roundtrip", "C35_srvresp_roundtrip", "C35_advrefs_roundtrip", "C35_advrefs_first_peeled",
-    "C35_updreq_roundtrip", "C35_ulreq_filter_refuted", "C35_ulreq_roundtrip_partial",
+    "C35_updreq_roundtrip", "C35_ulreq_roundtrip",
+    "C35_capadv_roundtrip", "C35_cmdreq_roundtrip", "C35_lsargs_roundtrip", "C35_fetchargs_roundtrip", "C35_lsout_roundtrip",
+    "C35_fetchout_roundtrip", "C35_fetchout_noready_refuted", "C35_fetchout_position",
+    "C35_shupd_git", "C35_uphav_git", "C35_srvresp_git", "C35_report_git", "C35_pushopts_git", "C35_capadv_git", "C35_lsout_git", "C35_ulreq_git",
+    "C35_advrefs_git", "C35_updreq_git", "C35_cmdreq_git", "C35_lsargs_git", "C35_fetchargs_git", "C35_fetchout_git",
 ]
-MODEL_FILES = ["PktLine.v", "Packp.v"]
+MODEL_FILES = ["PktLine.v", "C35UniTable.v", "C35Utf8.v", "Packp.v", "PackpV2.v"]
 MODELLED = ("plumbing/protocol/capability/list.go DecodeList / Add / AppendText; plumbing/objectid.go FromHex / NewHash / String / IsZero / Compare; "
-            "plumbing/protocol/packp: AdvRefs, UploadRequest, UploadHaves, ServerResponse, ShallowUpdate, UpdateRequests, ReportStatus, PushOptions "
-            "Encode and Decode (Model/Packp.v) on top of the pkt-line model of C34. Decoders read through pktline.Scanner only, so the model "
-            "takes the sequence of Scan results. Not modelled: Unicode white space in bytes.TrimSpace, unicode.IsGraphic beyond ASCII, fmt.Sscanf "
-            "beyond single-space separated ASCII tokens (model evaluated on ASCII inputs only), sort.Slice instability (lists stay below 12 "
-            "elements where it is an insertion sort); protocol v2 messages (CommandRequest, CapabilityAdv, LsRefs, Fetch) are exercised by the "
-            "round-trip oracle only, without a model")
+            "plumbing/protocol/packp v0/v1: AdvRefs, UploadRequest (with the filter line), UploadHaves, ServerResponse, ShallowUpdate (SHA-1 and SHA-256), "
+            "UpdateRequests, ReportStatus, PushOptions Encode and Decode (Model/Packp.v) on top of the pkt-line model of C34; "
+            "protocol v2 (Model/PackpV2.v): EncodeListV2 / DecodeListV2, CapabilityAdv, CommandRequest with nil / *LsRefsArgs / *FetchArgs arguments, "
+            "validateRefPrefix, LsRefsOutput (parseLsRefsLine, parseFullHash, symref-target: and peeled: attributes), FetchOutput (acknowledgments, "
+            "shallow-info, wanted-refs, packfile-uris sections, section order, the packfile header, where Decode stops reading). "
+            "bytes.TrimSpace / strings.TrimSpace / strings.Fields / strings.ContainsFunc and unicode.IsSpace / IsControl / IsGraphic are modelled "
+            "byte-wise over UTF-8 (Model/C35Utf8.v; IsGraphic through the interval table Model/C35UniTable.v, whose digest is recomputed from the "
+            "toolchain's unicode tables on every run), so the models are evaluated on arbitrary bytes. The v0 decoders read through pktline.Scanner "
+            "(model: the sequence of Scan results), the v2 decoders call pktline.ReadLine (model: the ReadLine results of the chunked reader, with the "
+            "bytes left unread). S (Spec/GitProto.v): the pkt-level grammars of git's pack-protocol / protocol-v2 documents for every message. "
+            "Not modelled: fmt.Sscanf beyond single-space separated ASCII tokens in UpdateRequests.parseCommand (the model answers 'unmodelled'), "
+            "sort.Slice instability (lists stay below 12 elements where it is an insertion sort), the limits tooManyRefPrefixes (65536 ref-prefix "
+            "lines) and maxSectionLines (2^22 lines per section)")
 TRUSTED = [
-    "C-impl: harness/cmd/c35 (packp Encode/Decode over a chunked reader, capability.DecodeList) vs Model/Packp.v on every ASCII case",
-    "direct oracle: decode(encode(v)) = canon(v) computed in props/C35.py for well-formed values of every message",
-    "C-git: go-git's reference advertisement is read by `git ls-remote ext::cat` (git 2.39.5) and must list exactly the advertised refs",
+    "C-impl: harness/cmd/c35 (packp Encode/Decode over a chunked reader, capability.DecodeList) vs Model/Packp.v and Model/PackpV2.v on every case",
+    "direct oracle: decode(encode(v)) = canon(v) computed in props/C35.py for well-formed values of every message (v2: and nothing left unread)",
+    "C-git (suite git): go-git's encodings are read by git 2.39.5 — `git ls-remote` (v0/v1 and v2, through a scripted peer `c35 stub` on the ext:: "
+    "transport), `git upload-pack --stateless-rpc` (v0 upload-request + haves; v2 ls-refs and fetch commands), `git receive-pack --stateless-rpc` "
+    "(update-request, push-options seen by a pre-receive hook), `git push --porcelain` (report-status), `git fetch` v0 and v2 (shallow-update, "
+    "server-response, fetch output + side-band pack) — and git's own advertisements, requests and responses are decoded by go-git; git's answers "
+    "are compared with a table of the fixed 4-commit repository (props/c35_git.py)",
+    "S vs git: Spec/GitProto.v is evaluated (Coq) on the same bytes and on edited variants: what S accepts git accepts, with the value go-git encoded; "
+    "what git refuses S refuses (refusals for what a request means on that server are set aside); disagreements are recorded as spec_mismatches",
 ]
-ASSUMPTIONS = ["git ls-remote prints the refs of the advertisement it parsed, one `<hash>\\t<name>` line each",
-               "message values stay below 12 references / hashes per list (sort.Slice and sort.Sort are insertion sorts there)"]
-RULE = ("case = message value (refs with/without HEAD, peeled tags in any position incl. the first ref, shallows, capabilities with values, "
-        "sha1/sha256 ids, commands, statuses, options, acks, depth forms, filter) + chunking, or a raw byte stream built from a valid "
-        "encoding by truncation / byte edits / line shuffles; non-trivial = not the empty value; distinct by content")
+ASSUMPTIONS = ["git ls-remote prints the refs of the advertisement it parsed, one `<hash>\\t<name>` line each, and `ref: <target>\\t<name>` for symrefs",
+               "message values stay below 12 references / hashes per list (sort.Slice and sort.Sort are insertion sorts there)",
+               "the table of git's answers on the fixed repository (shallow boundaries, common haves, object counts) in props/c35_git.py describes git 2.39.5; "
+               "cases outside the table (client shallows, negotiation against a depth request) are only checked for acceptance",
+               "Model/C35UniTable.v lists the maximal IsGraphic intervals of the toolchain's Unicode tables (15.0.0); compared by digest on every run"]
+RULE = ("case = message value (v0: refs with/without HEAD, peeled tags in any position incl. the first ref, shallows, capabilities with values, "
+        "sha1/sha256 ids, commands, statuses, options incl. non-ASCII UTF-8, acks, depth forms, filter; v2: capability lists, command requests with "
+        "ls-refs / fetch arguments, ls-refs output with symbolic, unborn and peeled entries, fetch output with every section combination) + chunking, "
+        "or a raw byte stream built from a valid encoding by truncation / byte edits / Unicode and ASCII white space at line ends / line shuffles / "
+        "extra special packets / the wrong decoder, or a C-git scenario (the values of one conversation with a git client or server); "
+        "non-trivial = not the empty value; distinct by content")
 
 Z40 = "0" * 40
 CAPS_POOL = [("multi_ack", []), ("thin-pack", []), ("side-band-64k", []), ("ofs-delta", []), ("report-status", []),
@@ -37,6 +62,12 @@ CAPS_POOL = [("multi_ack", []), ("thin-pack", []), ("side-band-64k", []), ("ofs-
              ("object-format", ["sha1"]), ("filter", []), ("push-options", []), ("x", ["", "y"]), ("session-id", ["a=b"])]
 NAMES = [b"HEAD", b"refs/heads/main", b"refs/heads/a", b"refs/heads/b", b"refs/tags/v1", b"refs/tags/v2", b"refs/tags/a",
          b"refs/remotes/o/m", b"refs/notes/c", b"refs/heads/zz"]
+
+
+# white space as bytes.TrimSpace / strings.Fields see it, and near misses: NBSP, NEL, LS, IDEOGRAPHIC SPACE, OGHAM SPACE,
+# EN QUAD, a raw 0x85 / 0xa0 (invalid UTF-8, not space), a truncated sequence, U+200B (not space), U+180E (not space)
+UNI_WS = [b"\xc2\xa0", b"\xc2\x85", b"\xe2\x80\xa8", b"\xe3\x80\x80", b"\xe1\x9a\x80", b"\xe2\x80\x80", b"\x85", b"\xa0",
+          b"\xe2\x80", b"\xe2\x80\x8b", b"\xe1\xa0\x8e", b"\t", b"\r", b"\x0b", b"\xe2\x81\x9f", b"\xf0\x9f\x9a\x80"]
 
 
 def hx(b):
@@ -113,7 +144,9 @@ def mutate(rng, data):
         if l > 4:
             pl = bytearray(pl)
             j = rng.randrange(len(pl))
-            pl[j:j + 1] = rng.choice([b"", b" ", b"  ", b"\x00", b"x", b"\n"])
+            pl[j:j + 1] = rng.choice([b"", b" ", b"  ", b"\x00", b"x", b"\n"] + UNI_WS)
+            if rng.random() < 0.25:                 # white space (ASCII / Unicode / broken UTF-8) at either end of the line
+                pl = bytearray(rng.choice(UNI_WS + [b""]) + bytes(pl).rstrip(b"\n") + rng.choice(UNI_WS) + rng.choice([b"", b"\n"]))
             return b"%04x" % (len(pl) + 4) + bytes(pl) + bytes(b[pos:])
         return bytes(b)
     if k == 6:      # swap two packets
@@ -132,6 +165,50 @@ def mutate(rng, data):
         i = rng.randrange(len(b))
         return bytes(b[:i]) + bytes(b[i:i + 1]).upper() + rng.choice([b"", b"a"]) + bytes(b[i + 1:])
     return bytes(b) + rbytes(rng, rng.randrange(1, 6), b"0123456789abcdef")
+
+
+def mutate_lines(rng, data):
+    """a well-framed variant of a pkt-line stream: one line edited, dropped, doubled or moved, or a special packet added"""
+    pkts, pos = [], 0
+    while pos < len(data):
+        l, pl, e, npos = ref_read(data, pos, 65520)
+        if npos <= pos or e not in ("nil",):
+            return data
+        pkts.append((l, pl))
+        pos = npos
+    idx = [i for i, (l, pl) in enumerate(pkts) if l > 4]
+    if not idx:
+        return data
+    k = rng.randrange(10)
+    i = rng.choice(idx)
+    l, pl = pkts[i]
+    if k <= 3:
+        pl = bytearray(pl)
+        j = rng.randrange(len(pl))
+        edit = rng.choice([b"", b" ", b"  ", b"x", b"g", b"\n", b"=", b"Z", b"0", b"-", b"\x00"])
+        if rng.random() < 0.5:
+            pl[j:j + 1] = edit
+        else:
+            pl[j:j] = edit
+        pkts[i] = (len(pl) + 4, bytes(pl))
+    elif k == 4:
+        del pkts[i]
+    elif k == 5:
+        pkts.insert(i, pkts[i])
+    elif k == 6 and len(idx) > 1:
+        j = rng.choice(idx)
+        pkts[i], pkts[j] = pkts[j], pkts[i]
+    elif k == 7:
+        pkts.insert(rng.randrange(len(pkts) + 1), rng.choice([(0, b""), (1, b""), (2, b""), (4, b"")]))
+    elif k == 8:                            # the stream stops at a packet boundary (sometimes with a flush there)
+        pkts = pkts[:rng.randrange(len(pkts) + 1)] + ([(0, b"")] if rng.random() < 0.5 else [])
+    else:                                   # a line of another kind from the same stream moves behind line i
+        j = rng.choice(idx)
+        pkts.insert(i + 1, pkts[j])
+    out = b""
+    for l, pl in pkts:
+        out += b"%04x" % l if l <= 4 else b"%04x" % (len(pl) + 4) + pl
+    return out
 
 
 # ------------------------------------------------------------------ values
@@ -228,7 +305,7 @@ def gen_value(rng, msg):
                 c["since"] = 1600000000
         elif m == 4 and hostile:
             c["deepen"], c["since"] = 3, 7
-        if rng.random() < 0.12:
+        if rng.random() < 0.3:
             c["filter"] = hx(rng.choice([b"blob:none", b"tree:0", b"blob:limit=1k"]))
         return c
     raise ValueError(msg)
@@ -372,7 +449,7 @@ class Msgs(Suite):
                 r = random.Random(c.pop("_seed"))
                 data = bytes.fromhex(((enc.get(i) or {}).get("extra") or {}).get("bytes") or "")
                 c.pop("_from")
-                c["hex"] = (mutate(r, data) if r.random() < 0.8 else data).hex()
+                c["hex"] = ((mutate_lines(r, data) if r.random() < 0.4 else mutate(r, data)) if r.random() < 0.8 else data).hex()
         return cases
 
     def model_expr(self, c):
@@ -380,17 +457,13 @@ class Msgs(Suite):
         ch = coq_ns(c.get("chunks", []))
         if k == "caps":
             raw = bytes.fromhex(c["hex"])
-            return "c35_caps %s" % coq_hex(raw) if ascii_only(raw) else None
+            return "c35_caps %s" % coq_hex(raw)
         if k == "dec":
             raw = bytes.fromhex(c["hex"])
-            if not ascii_only(raw):
-                return None
             if c["msg"] == "updreq" and not self.updreq_domain(raw):
                 return None
             return 'c35_dec "%s" %s %s' % (c["msg"], coq_hex(raw), ch)
         m = c["msg"]
-        if not ascii_only(value_bytes(c)):
-            return None
         if m == "advrefs":
             refs = coq_list(["(%s, %s)" % (coq_hex(bytes.fromhex(n)), coq_hex(bytes.fromhex(h))) for n, h in c["refs"]])
             return "c35_advrefs %s %s %s %s %s" % (coq_Z(c["version"]), coq_caps(c["caps"]), refs, hs(c["shallows"]), ch)
@@ -422,15 +495,18 @@ class Msgs(Suite):
 
     @staticmethod
     def updreq_domain(raw):
-        """every command line is three single-space separated graphic-ASCII tokens (the modelled fmt.Sscanf domain)"""
+        """every command line is three single-space separated graphic-ASCII tokens (the modelled fmt.Sscanf domain);
+        only the first command line is cut at its NUL (the capabilities follow), later lines are parsed whole"""
         pos = 0
+        first = True
         while pos < len(raw):
             l, pl, e, npos = ref_read(raw, pos, 65520)
             if npos <= pos or e != "nil":
                 break
             pos = npos
-            if l > 4 and not pl.rstrip(b"\n").startswith(b"shallow"):
-                cmd = pl.split(b"\x00")[0]
+            if l > 4 and not (first and pl.rstrip(b"\n").startswith(b"shallow")):
+                cmd = pl.split(b"\x00")[0] if first else pl
+                first = False
                 toks = cmd.split(b" ")
                 if len(toks) != 3 or not all(toks) or not all(32 <= ch < 127 for ch in cmd):
                     return False
@@ -460,10 +536,6 @@ class Msgs(Suite):
         return fails
 
     def finding_class(self, c, reason, reply):
-        if c.get("kind") == "rt" and c.get("msg") == "ulreq" and c.get("filter"):
-            return "ulreq-filter-not-decoded"
-        if c.get("kind") == "rt" and c.get("msg") == "shupd" and any(len(h) == 128 for h in c["shallows"] + c["unshallows"]):
-            return "shupd-sha256-rejected"
         return None
 
     def extra(self, ctx, cases, impl, model):
@@ -507,4 +579,1149 @@ class Msgs(Suite):
         return n == b"HEAD" or n.startswith(b"refs/")
 
 
-SUITES = [Msgs()]
+
+# ====================================================================== protocol v2
+CAPS2_POOL = [("agent", ["git/2.39.5"]), ("ls-refs", ["unborn"]), ("ls-refs", []), ("fetch", ["shallow", "wait-for-done", "filter"]),
+              ("fetch", ["shallow"]), ("server-option", []), ("object-format", ["sha1"]), ("object-format", ["sha256"]),
+              ("object-info", []), ("session-id", ["a=b"]), ("x", ["y", "z=1"])]
+CAPS2_HOSTILE = [("x", [""]), ("y", ["a b"]), ("", []), ("k=v", []), ("z", ["", "q"]), ("sp ace", []), ("n", ["l\n"]),
+                 ("\xc2\xa0k", ["v\xe2\x80\xa8"])]
+V2_DEC = ["capadv", "cmd-nil", "cmd-lsrefs", "cmd-fetch", "lsargs", "fetchargs", "lsout", "fetchout"]
+V2_MSGS = ["capadv", "cmd", "lsargs", "fetchargs", "lsout", "fetchout"]
+ZERO_TIME = -62135596800
+
+
+def rcaps2(rng, hostile):
+    seen, out = set(), []
+    for _ in range(rng.randrange(5)):
+        n, v = rng.choice(CAPS2_POOL + (CAPS2_HOSTILE if hostile else []))
+        if n in seen:                   # a capability.List value: one entry per key
+            continue
+        seen.add(n)
+        out.append([hx(n.encode("latin-1"))] + [hx(x.encode("latin-1")) for x in v])
+    return out
+
+
+def caps2_wf(caps):
+    for e in caps:
+        if not tok_ok(bytes.fromhex(e[0]), b"=") or not all(tok_ok(bytes.fromhex(v)) for v in e[1:]):
+            return False
+    return len({e[0] for e in caps}) == len(caps)
+
+
+def gen_ls(rng, hostile):
+    pool = [b"refs/heads/", b"refs/tags/", b"HEAD", b"refs/", b"refs/heads/main", b"refs/h\xc3\xa9"]
+    bad = [b"", b"a b", b"x\n", b"\x00", b"refs/\xc2\xa0", b"refs/\xe2\x80\xa8x", b"r\x7f", b"r\xc2\x85", b"ok\xff\xfe", b"t\tab", b"refs/\xc2\x9f"]
+    pre = [hx(rng.choice(pool + (bad if hostile else []))) for _ in range(rng.randrange(0, 4))]
+    return {"peel": rng.random() < 0.5, "symrefs": rng.random() < 0.5, "unborn": rng.random() < 0.3, "prefixes": pre}
+
+
+def gen_fetch(rng, hostile, H):
+    a = {"wants": [H() for _ in range(rng.randrange(0 if hostile else 1, 4))], "haves": [H() for _ in range(rng.randrange(0, 4))],
+         "flags": [rng.random() < 0.4 for _ in range(7)], "shallows": [H() for _ in range(rng.choice([0, 0, 1, 2]))],
+         "deepen": rng.choice([0, 0, 0, 1, 7, 2147483647] + ([-1, -7] if hostile else [])), "since": rng.choice([None, None, 0, 1700000000, -5] + ([ZERO_TIME] if hostile else [])),
+         "not": [hx(rng.choice(NAMES + ([b"a b", b" x", b"y\xc2\xa0"] if hostile else []))) for _ in range(rng.choice([0, 0, 1, 2]))],
+         "filter": hx(rng.choice([b"", b"", b"blob:none", b"tree:0", b"blob:limit=1k", b"combine:blob:none+tree:1"] + ([b" sp", b"x\n"] if hostile else [])))}
+    if a["wants"] and rng.random() < 0.3:
+        a["wants"].append(rng.choice(a["wants"]))
+    if hostile and rng.random() < 0.3:
+        a["haves"].append(hx(Z40))
+    return a
+
+
+def gen_value2(rng, msg):
+    fmt = 64 if rng.random() < 0.2 else 40
+    H = lambda: hx(rhash(rng, fmt))
+    hostile = rng.random() < 0.2
+    if msg == "capadv":
+        return {"msg": msg, "version": 2 if rng.random() < 0.9 else rng.choice([0, 1, 3]), "caps": rcaps2(rng, hostile)}
+    if msg == "cmd":
+        args = rng.choice(["nil", "lsrefs", "fetch"])
+        cmd = {"nil": [b"object-info", b"", b"ls-refs"], "lsrefs": [b"ls-refs"], "fetch": [b"fetch"]}[args]
+        c = {"msg": msg, "args": args, "command": hx(rng.choice(cmd + ([b"", b"a b", b"x\n", b"f\xc3\xa9tch"] if hostile else []))), "caps": rcaps2(rng, hostile)}
+        if args == "lsrefs":
+            c["ls"] = gen_ls(rng, hostile)
+        if args == "fetch":
+            c["fetch"] = gen_fetch(rng, hostile, H)
+        return c
+    if msg == "lsargs":
+        return {"msg": msg, "ls": gen_ls(rng, hostile)}
+    if msg == "fetchargs":
+        return {"msg": msg, "fetch": gen_fetch(rng, hostile, H)}
+    if msg == "lsout":
+        refs = []
+        names = rng.sample(NAMES, rng.randrange(0, 6))
+        for n in names:
+            if n == b"HEAD" and rng.random() < 0.7:
+                refs.append([hx(n), True, hx(rng.choice([b"refs/heads/main", b"refs/heads/unborn", b"refs/heads/a"]))])
+            elif rng.random() < 0.12:
+                refs.append([hx(n), True, hx(rng.choice(NAMES[1:]))])
+            else:
+                refs.append([hx(n), False, H() if rng.random() < 0.93 else hx("0" * fmt)])
+                if n.startswith(b"refs/tags/") and rng.random() < 0.7:
+                    refs.append([hx(n + b"^{}"), False, H()])
+        mode = rng.randrange(4)
+        if mode == 0:
+            rng.shuffle(refs)
+        if hostile:
+            k = rng.randrange(6)
+            if k == 0 and refs:
+                refs.append(list(rng.choice(refs)))
+            elif k == 1:
+                refs.append([hx(b"refs/tags/orphan^{}"), False, H()])
+            elif k == 2:
+                refs.insert(0, [hx(rng.choice([b"", b"a b", b"n\xc2\xa0m", b"x\xe3\x80\x80", b"peeled:zz"])), False, H()])
+            elif k == 3:
+                refs.append([hx(b"refs/heads/s"), True, hx(rng.choice([b"", b"t t", b"refs/\xe2\x80\xa9"]))])
+            elif k == 4:
+                refs.append([hx(b"refs/tags/symp^{}"), True, hx(b"refs/heads/a")])
+        return {"msg": msg, "refs": refs}
+    if msg == "fetchout":
+        o = {"msg": msg, "acks": None, "shallow": None, "wanted": None, "uris": None, "packfile": rng.random() < 0.6}
+        if not o["packfile"] or rng.random() < 0.5:
+            o["acks"] = {"hashes": [H() for _ in range(rng.randrange(0, 4))], "ready": o["packfile"] and rng.random() < (0.6 if hostile else 1.0)}
+        if hostile and not o["packfile"] and rng.random() < 0.3:
+            o["acks"]["ready"] = True
+        if o["packfile"] or (hostile and rng.random() < 0.3):
+            if rng.random() < 0.4:
+                o["shallow"] = {"sh": [H() for _ in range(rng.randrange(0, 3))], "un": [H() for _ in range(rng.randrange(0, 3))]}
+            if rng.random() < 0.3:
+                o["wanted"] = [[hx(rng.choice(NAMES + ([b"a b", b""] if hostile else []))), H()] for _ in range(rng.randrange(0, 3))]
+            if rng.random() < 0.2:
+                o["uris"] = [hx(rng.choice([b"https://cdn.example/p1.pack", b"abc", b"u v"] + ([b"", b"x\n", b"ERR z"] if hostile else []))) for _ in range(rng.randrange(0, 3))]
+        return o
+    raise ValueError(msg)
+
+
+def coq_strs(l):
+    return coq_list([coq_hex(bytes.fromhex(x)) for x in l])
+
+
+def coq_lsargs(a):
+    return "(mk_lsargs %s %s %s %s)" % (coq_bool(a["peel"]), coq_bool(a["symrefs"]), coq_bool(a["unborn"]), coq_strs(a["prefixes"]))
+
+
+def coq_fetchargs(a):
+    return "(mk_fetchargs %s %s %s %s %s %s %s %s)" % (
+        hs(a["wants"]), hs(a["haves"]), coq_list([coq_bool(f) for f in a["flags"]]), hs(a["shallows"]), coq_Z(a["deepen"]),
+        coq_opt(None if a["since"] is None else coq_Z(a["since"])), coq_strs(a["not"]), coq_hex(bytes.fromhex(a["filter"])))
+
+
+def coq_optv(x, f):
+    return "None" if x is None else "(Some %s)" % f(x)
+
+
+def since_canon(t):
+    return None if t is None or t == ZERO_TIME else t
+
+
+def fetch_canon(a):
+    if not a["wants"] or not all(hash_ok(h, True) for h in a["wants"] + a["haves"] + a["shallows"]):
+        return None
+    if not all(tok_ok(bytes.fromhex(r)) for r in a["not"]) or not tok_ok(bytes.fromhex(a["filter"]) or b"x"):
+        return None
+    key = lambda h: bytes.fromhex(hstr(h))
+    return {"wants": sorted((hstr(h) for h in a["wants"]), key=bytes.fromhex), "haves": sorted((hstr(h) for h in a["haves"]), key=bytes.fromhex),
+            "flags": a["flags"], "shallows": sorted((hstr(h) for h in a["shallows"]), key=bytes.fromhex),
+            "deepen": a["deepen"] if a["deepen"] > 0 else 0, "since": since_canon(a["since"]), "not": a["not"], "filter": a["filter"]}
+
+
+def ls_canon(a):
+    if not all(tok_ok(bytes.fromhex(p)) for p in a["prefixes"]):
+        return None
+    return dict(a)
+
+
+def expected2(c):
+    """-> (wf, expected decoded value) for a v2 value case; the decoder must also leave nothing unread"""
+    m = c["msg"]
+    if m == "capadv":
+        if c["version"] != 2 or not caps2_wf(c["caps"]):
+            return False, None
+        return True, {"version": 2, "caps": c["caps"]}
+    if m == "cmd":
+        cmd = bytes.fromhex(c["command"])
+        if not caps2_wf(c["caps"]):
+            return False, None
+        if cmd == b"":
+            return False, None          # an empty command is the empty request (a flush): capabilities and arguments are not sent
+        if not tok_ok(cmd):
+            return False, None
+        args = None
+        if c["args"] == "lsrefs":
+            args = ls_canon(c["ls"])
+        elif c["args"] == "fetch":
+            args = fetch_canon(c["fetch"])
+        if c["args"] != "nil" and args is None:
+            return False, None
+        return True, {"command": c["command"], "caps": c["caps"], "args": args}
+    if m == "lsargs":
+        a = ls_canon(c["ls"])
+        return (a is not None), a
+    if m == "fetchargs":
+        a = fetch_canon(c["fetch"])
+        return (a is not None), a
+    if m == "lsout":
+        byname = {}
+        for n, sym, v in c["refs"]:
+            nb = bytes.fromhex(n)
+            if not tok_ok(nb):
+                return False, None
+            if sym and not tok_ok(bytes.fromhex(v)):
+                return False, None
+            if not sym:
+                if not hash_ok(v, True):
+                    return False, None
+                byname[nb] = v
+        want = []
+        for n, sym, v in c["refs"]:
+            nb = bytes.fromhex(n)
+            if nb.endswith(b"^{}"):
+                continue
+            want.append([n, sym, v])
+            if not sym and nb + b"^{}" in byname:
+                want.append([(nb + b"^{}").hex(), False, byname[nb + b"^{}"]])
+        return True, want
+    if m == "fetchout":
+        a, sh, w, u = c["acks"], c["shallow"], c["wanted"], c["uris"]
+        hashes = (a["hashes"] if a else []) + (sh["sh"] + sh["un"] if sh else []) + ([h for _, h in w] if w else [])
+        if not all(hash_ok(h, True) for h in hashes):
+            return False, None
+        if c["packfile"]:
+            if a is not None and not a["ready"]:
+                return False, None      # acknowledgments without "ready" end the response (gitprotocol-v2); Encode does not check it
+        else:
+            if a is None or a["ready"] or sh is not None or w is not None or u is not None:
+                return False, None
+        if w and not all(tok_ok(bytes.fromhex(n)) for n, _ in w):
+            return False, None
+        if u and not all(not bytes.fromhex(x).endswith(b"\n") and not bytes.fromhex(x).startswith(b"ERR ") for x in u):
+            return False, None
+        return True, {"packfile": c["packfile"], "acks": None if a is None else {"hashes": [hstr(h) for h in a["hashes"]], "ready": a["ready"]},
+                      "shallow": None if sh is None else {"sh": [hstr(h) for h in sh["sh"]], "un": [hstr(h) for h in sh["un"]]},
+                      "wanted": None if w is None else [[n, hstr(h)] for n, h in w], "uris": u}
+    return False, None
+
+
+def cut_after_section(rng, data, k):
+    """the stream up to the k-th delim-pkt (or a packet boundary), then nothing, a flush-pkt or a response-end"""
+    pkts, pos = [], 0
+    while pos < len(data):
+        l, pl, e, npos = ref_read(data, pos, 65520)
+        if npos <= pos or e != "nil":
+            break
+        pkts.append(data[pos:npos])
+        pos = npos
+    after_delim = [i + 1 for i, p in enumerate(pkts) if p == b"0001"]
+    j = after_delim[k % len(after_delim)] if after_delim and rng.random() < 0.85 else rng.randrange(len(pkts) + 1)
+    return b"".join(pkts[:j]) + rng.choice([b"", b"0000", b"0002", b"0000"])
+
+
+def dec_kind(c):
+    return "cmd-" + c["args"] if c["msg"] == "cmd" else c["msg"]
+
+
+class V2(Suite):
+    """protocol v2 messages: value -> Encode -> chunked Decode, and Decode of raw / mutated streams"""
+    name = "v2"
+    go_cmd = "c35"
+    coq_imports = "From GoGit Require Import Model.PktLine Model.Packp Model.PackpV2."
+    quick_n = 320
+    thorough_n = 2500
+    coq_chunk = 70
+
+    def gen(self, rng, n, tier):
+        import random
+        from vf import core
+        cases = [{"bucket": "unitab", "kind": "unitab"}]
+        while len(cases) < n:
+            b = pick_weighted(rng, [(6, "rt"), (5, "dec")])
+            msg = rng.choice(V2_MSGS)
+            v = gen_value2(rng, msg)
+            if b == "rt":
+                v.update({"bucket": "rt2-" + dec_kind(v), "kind": "rt2", "chunks": rchunks(rng, 250)})
+                cases.append(v)
+            elif msg == "fetchout" and rng.random() < 0.5:
+                # metadata sections without the acknowledgments in front, cut behind each section
+                H = lambda: hx(rhash(rng, 40))
+                v = {"msg": msg, "kind": "rt2", "chunks": [], "acks": None if rng.random() < 0.7 else {"hashes": [H()], "ready": True},
+                     "shallow": {"sh": [H()], "un": []} if rng.random() < 0.6 else None,
+                     "wanted": [[hx(b"refs/heads/main"), H()]] if rng.random() < 0.4 else None,
+                     "uris": [hx(b"https://cdn.example/p.pack")] if rng.random() < 0.3 else None, "packfile": True}
+                for k in range(sum(1 for x in ("acks", "shallow", "wanted", "uris") if v[x] is not None) or 1):
+                    cases.append({"bucket": "dec2-fetchout-cut", "kind": "dec2", "msg": "fetchout", "_from": v, "cut": k,
+                                  "chunks": rchunks(rng, 120), "_seed": rng.randrange(1 << 30)})
+            else:
+                v.update({"kind": "rt2", "chunks": []})
+                dk = dec_kind(v) if rng.random() < 0.85 else rng.choice(V2_DEC)       # sometimes the wrong decoder
+                cases.append({"bucket": "dec2-" + dk, "kind": "dec2", "msg": dk, "_from": v, "chunks": rchunks(rng, 200), "_seed": rng.randrange(1 << 30)})
+        need = [c for c in cases if c["kind"] == "dec2"]
+        if need:
+            enc = core.run_impl(self.go_cmd, [dict(c["_from"], id=i) for i, c in enumerate(need)])
+            for i, c in enumerate(need):
+                r = random.Random(c.pop("_seed"))
+                data = bytes.fromhex(((enc.get(i) or {}).get("extra") or {}).get("bytes") or "")
+                c.pop("_from")
+                if r.random() < 0.15:
+                    data += r.choice([b"0000", b"0009PACK\n", b"0002", b"000dpackfile\n", b"0001"])     # something after the message
+                if c.get("cut") is not None:
+                    c["hex"] = cut_after_section(r, data, c.pop("cut")).hex()     # a response that stops between two sections
+                    continue
+                c["hex"] = ((mutate_lines(r, data) if r.random() < 0.45 else mutate(r, data)) if r.random() < 0.75 else data).hex()
+        return cases
+
+    def model_expr(self, c):
+        k = c["kind"]
+        ch = coq_ns(c.get("chunks", []))
+        if k == "unitab":
+            return "c35_unitab"
+        if k == "dec2":
+            return 'c35v2_dec "%s" %s %s' % (c["msg"], coq_hex(bytes.fromhex(c["hex"])), ch)
+        m = c["msg"]
+        if m == "capadv":
+            return "c35v2_capadv %s %s %s" % (coq_Z(c["version"]), coq_caps(c["caps"]), ch)
+        if m == "cmd":
+            cmd = coq_hex(bytes.fromhex(c["command"]))
+            if c["args"] == "nil":
+                return "c35v2_cmd_nil %s %s %s" % (cmd, coq_caps(c["caps"]), ch)
+            if c["args"] == "lsrefs":
+                return "c35v2_cmd_lsrefs %s %s %s %s" % (cmd, coq_caps(c["caps"]), coq_lsargs(c["ls"]), ch)
+            return "c35v2_cmd_fetch %s %s %s %s" % (cmd, coq_caps(c["caps"]), coq_fetchargs(c["fetch"]), ch)
+        if m == "lsargs":
+            return "c35v2_lsargs %s %s" % (coq_lsargs(c["ls"]), ch)
+        if m == "fetchargs":
+            return "c35v2_fetchargs %s %s" % (coq_fetchargs(c["fetch"]), ch)
+        if m == "lsout":
+            refs = coq_list(["(%s, %s, %s)" % (coq_hex(bytes.fromhex(n)), coq_bool(sym), coq_hex(bytes.fromhex(v))) for n, sym, v in c["refs"]])
+            return "c35v2_lsout %s %s" % (refs, ch)
+        if m == "fetchout":
+            a, sh, w, u = c["acks"], c["shallow"], c["wanted"], c["uris"]
+            return "c35v2_fetchout (mk_fetchout %s %s %s %s %s) %s" % (
+                coq_optv(a, lambda a: "(%s, %s)" % (hs(a["hashes"]), coq_bool(a["ready"]))),
+                coq_optv(sh, lambda s: "(%s, %s)" % (hs(s["sh"]), hs(s["un"]))),
+                coq_optv(w, lambda w: coq_list(["(%s, %s)" % (coq_hex(bytes.fromhex(n)), coq_hex(bytes.fromhex(h))) for n, h in w]) if w else "(@nil (string * string))"),
+                coq_optv(u, lambda u: coq_strs(u) if u else "(@nil string)"), coq_bool(c["packfile"]), ch)
+        return None
+
+    def nontrivial(self, c):
+        return c["kind"] != "unitab"
+
+    def oracle(self, ctx, cases, impl, model):
+        fails = {}
+        for c in cases:
+            r = impl.get(c["id"])
+            if r is None or r.get("panic"):
+                fails[c["id"]] = "no reply / panic"
+                continue
+            if c["kind"] != "rt2":
+                continue
+            wf, want = expected2(c)
+            if not wf:
+                continue
+            ex = r.get("extra") or {}
+            if ex.get("enc") != "ok":
+                fails[c["id"]] = "well-formed v2 %s value was not encoded: %s" % (c["msg"], ex.get("err"))
+            elif (ex.get("value") or {}).get("v") != want or (ex.get("value") or {}).get("rest") != 0:
+                fails[c["id"]] = "decode(encode(v)) = %s, expected %s with nothing left unread" % (ex.get("value"), want)
+        return fails
+
+    def finding_class(self, c, reason, reply):
+        return None
+
+
+
+# ====================================================================== C-git: the git binary as the reference
+from props import c35_git as G
+
+UP_CAPS = [("multi_ack_detailed", []), ("multi_ack", []), ("side-band-64k", []), ("thin-pack", []), ("ofs-delta", []), ("no-progress", []),
+           ("include-tag", []), ("agent", ["go-git/6.x"]), ("no-done", []), ("x-unknown", [])]
+RP_CAPS = [("report-status", []), ("delete-refs", []), ("ofs-delta", []), ("agent", ["go-git/6.x"]), ("quiet", []), ("atomic", [])]
+ADV_CAPS = [("multi_ack", []), ("thin-pack", []), ("side-band-64k", []), ("ofs-delta", []), ("shallow", []), ("agent", ["go-git/6.x"]),
+            ("object-format", ["sha1"]), ("allow-tip-sha1-in-want", [])]
+REPO = G.Repo()
+HX = lambda h: hx(h)      # a hash as the cases carry it: hex of its ASCII form
+
+
+def caps_from(rng, pool, k):
+    seen, out = set(), []
+    for n, v in rng.sample(pool, min(k, len(pool))):
+        out.append([hx(n)] + [hx(x) for x in v])
+    return out
+
+
+# refusals for what a request means on this server (an id that is no tip, a capability or command that was not advertised), not for its form
+SEMANTIC = ("not our ref", "ambiguous deepen-not", "no commits selected", "unknown capability", "invalid command", "mismatched object format",
+            "filtering capability not negotiated", "invalid filter-spec", "unknown object format")
+
+
+def S_expr(msg, data, hexsz=40):
+    return 'c35s "%s" %s %s' % (msg, coq_N(hexsz), coq_hex(data))
+
+
+class Git(Suite):
+    """go-git's encodings in front of git 2.39.5 (client and server programs), git's own messages in front of go-git's decoders,
+    and S (Spec/GitProto.v) evaluated on the same bytes.  A case is one scenario with all the values it needs."""
+    name = "git"
+    go_cmd = "c35"
+    coq_imports = "From GoGit Require Import Model.PktLine Model.Packp Model.PackpV2."
+    quick_n = 26
+    thorough_n = 120
+    coq_chunk = 30
+
+    MUT = {"adv-client": ("advrefs", 0), "v2-lsremote": ("lsout", 1), "ulreq-server": ("ulreq", 0), "v2-server-lsrefs": ("cmd-lsrefs", 0),
+           "v2-server-fetch": ("cmd-fetch", 0), "updreq-server": ("updreq", 0)}
+    SCN = [(4, "adv-client"), (3, "v2-lsremote"), (5, "ulreq-server"), (3, "v2-server-lsrefs"), (4, "v2-server-fetch"),
+           (3, "updreq-server"), (2, "report-client"), (1, "fetch-client-v0"), (1, "fetch-client-v2")]
+
+    # ------------------------------------------------------------ generation
+    def gen(self, rng, n, tier):
+        cases = [{"bucket": "git-adv", "kind": "multi", "scn": "git-adv", "parts": []}]
+        while len(cases) < n:
+            scn = pick_weighted(rng, self.SCN)
+            c = getattr(self, "gen_" + scn.replace("-", "_"))(rng)
+            c.update({"bucket": scn, "kind": "multi", "scn": scn})
+            if scn in self.MUT and rng.random() < 0.3:
+                c["mut"] = rng.randrange(1 << 30)           # the encoding is edited before git and S read it
+                c["bucket"] = scn + "-mutated"
+            for p in c["parts"]:
+                p.setdefault("chunks", [])
+            cases.append(c)
+        return cases
+
+    def gen_adv_client(self, rng):
+        H = lambda: hx(rhash(rng, 40))
+        names = rng.sample(NAMES, rng.randrange(0, 7))
+        refs = []
+        for nm in names:
+            refs.append([hx(nm), H()])
+            if nm.startswith(b"refs/tags/") and rng.random() < 0.7:
+                refs.append([hx(nm + b"^{}"), H()])
+        if rng.random() < 0.3:
+            rng.shuffle(refs)
+        if rng.random() < 0.25:
+            refs = [r for r in refs if r[0] != hx(b"HEAD")]
+        caps = caps_from(rng, ADV_CAPS, rng.randrange(0, 5))
+        if any(r[0] == hx(b"HEAD") for r in refs) and rng.random() < 0.7:
+            tgt = rng.choice([bytes.fromhex(r[0]) for r in refs if not bytes.fromhex(r[0]).endswith(b"^{}")])
+            caps.append([hx(b"symref"), hx(b"HEAD:" + tgt)])
+        return {"parts": [{"kind": "rt", "msg": "advrefs", "version": rng.choice([0, 0, 1]), "caps": caps, "refs": refs,
+                           "shallows": [H() for _ in range(rng.choice([0, 0, 1, 2]))]}]}
+
+    def lsout_value(self, rng):
+        H = lambda: hx(rhash(rng, 40))
+        refs = []
+        names = rng.sample(NAMES, rng.randrange(0, 6))
+        for nm in names:
+            if nm == b"HEAD":
+                continue
+            refs.append([hx(nm), False, H()])
+            if nm.startswith(b"refs/tags/") and rng.random() < 0.7:
+                refs.append([hx(nm + b"^{}"), False, H()])
+        heads = [r for r in refs if bytes.fromhex(r[0]).startswith(b"refs/heads/")]
+        if rng.random() < 0.8:
+            if heads and rng.random() < 0.8:
+                refs.insert(0, [hx(b"HEAD"), True, rng.choice(heads)[0]])
+            else:
+                refs.insert(0, [hx(b"HEAD"), True, hx(b"refs/heads/unborn")])        # an unborn HEAD
+        if rng.random() < 0.3:
+            rng.shuffle(refs)
+        return {"kind": "rt2", "msg": "lsout", "refs": refs}
+
+    def capadv_value(self, rng, fetch=("shallow",)):
+        caps = [[hx(b"agent"), hx(b"go-git/6.x")], [hx(b"ls-refs"), hx(b"unborn")], [hx(b"fetch")] + [hx(f) for f in fetch],
+                [hx(b"object-format"), hx(b"sha1")]]
+        if rng.random() < 0.5:
+            caps.append([hx(b"server-option")])
+        if rng.random() < 0.5:
+            rng.shuffle(caps)
+        return {"kind": "rt2", "msg": "capadv", "version": 2, "caps": caps}
+
+    def gen_v2_lsremote(self, rng):
+        return {"parts": [self.capadv_value(rng), self.lsout_value(rng)]}
+
+    def gen_ulreq_server(self, rng):
+        tips = [REPO.commit[4], REPO.commit[3], REPO.commit[1], REPO.tag]
+        wants = rng.sample(tips, rng.choice([1, 1, 2, 3]))
+        if rng.random() < 0.2:
+            wants.append(wants[0])
+        caps = caps_from(rng, UP_CAPS, rng.randrange(0, 5))
+        m = rng.choice([0, 0, 0, 1, 1, 2, 3, 4])
+        u = {"kind": "rt", "msg": "ulreq", "caps": caps, "wants": [HX(w) for w in wants], "shallows": [], "deepen": 0, "since": None, "not": [], "filter": ""}
+        if m == 1:
+            u["deepen"] = rng.choice([1, 2, 3, 50])
+        elif m == 2:
+            u["since"] = 1700000000 + rng.choice([1, 2, 3]) * 1000 + rng.choice([-500, 0])
+        elif m == 3:
+            u["not"] = [hx(rng.choice([b"refs/heads/dev", b"refs/tags/lw", b"refs/tags/v1"]))]
+            if rng.random() < 0.4:
+                u["since"] = 1700001000
+        elif m == 4:
+            u["shallows"] = [HX(REPO.commit[rng.choice([2, 3])])]
+            if rng.random() < 0.5:
+                u["deepen"] = rng.choice([1, 2, 5])
+        if rng.random() < 0.3:
+            u["filter"] = hx(rng.choice([b"blob:none", b"tree:0", b"blob:limit=1k"]))
+            u["caps"].append([hx(b"filter")])
+        if u["deepen"] or u["since"] or u["not"] or u["shallows"]:
+            u["caps"].append([hx(b"shallow")])
+        plain = not (u["deepen"] or u["since"] or u["not"] or u["shallows"])
+        haves = ([HX(REPO.commit[i]) for i in rng.sample([1, 2, 3, 4], rng.choice([0, 0, 1, 2]))] if plain else []) + [hx(rhash(rng, 40)) for _ in range(rng.choice([0, 0, 1]))]
+        return {"parts": [u, {"kind": "rt", "msg": "uphav", "haves": haves, "done": True}]}
+
+    def gen_v2_server_lsrefs(self, rng):
+        pre = [hx(rng.choice([b"refs/heads/", b"refs/tags/", b"HEAD", b"refs/", b"refs/heads/ma", b"refs/tags/v1", b"refs/nothing/"]))
+               for _ in range(rng.randrange(0, 3))]
+        ls = {"peel": rng.random() < 0.6, "symrefs": rng.random() < 0.6, "unborn": rng.random() < 0.3, "prefixes": pre}
+        caps = [[hx(b"agent"), hx(b"go-git/6.x")]] if rng.random() < 0.7 else []
+        if rng.random() < 0.6:
+            caps.append([hx(b"object-format"), hx(b"sha1")])
+        return {"parts": [{"kind": "rt2", "msg": "cmd", "args": "lsrefs", "command": hx(b"ls-refs"), "caps": caps, "ls": ls}]}
+
+    def gen_v2_server_fetch(self, rng):
+        tips = [REPO.commit[4], REPO.commit[3], REPO.commit[1], REPO.tag]
+        wants = rng.sample(tips, rng.choice([1, 1, 2]))
+        m = rng.choice([0, 0, 0, 1, 2, 3, 4])
+        haves = ([HX(REPO.commit[i]) for i in rng.sample([1, 2, 3], rng.choice([0, 0, 1, 2]))] if m == 0 else []) + [hx(rhash(rng, 40)) for _ in range(rng.choice([0, 0, 1]))]
+        done = rng.random() < 0.6
+        flags = [done, rng.random() < 0.5, rng.random() < 0.5, rng.random() < 0.3, rng.random() < 0.5, False, False]
+        a = {"wants": [HX(w) for w in wants], "haves": haves, "flags": flags, "shallows": [], "deepen": 0, "since": None, "not": [], "filter": ""}
+        if m == 1:
+            a["deepen"] = rng.choice([1, 2, 3])
+        elif m == 2:
+            a["since"] = 1700000000 + rng.choice([1, 2, 3]) * 1000
+        elif m == 3:
+            a["not"] = [hx(rng.choice([b"refs/heads/dev", b"refs/tags/lw"]))]
+        elif m == 4:
+            a["shallows"] = [HX(REPO.commit[rng.choice([2, 3])])]
+        if rng.random() < 0.25:
+            a["filter"] = hx(rng.choice([b"blob:none", b"tree:0"]))
+        caps = [[hx(b"agent"), hx(b"go-git/6.x")], [hx(b"object-format"), hx(b"sha1")]]
+        return {"parts": [{"kind": "rt2", "msg": "cmd", "args": "fetch", "command": hx(b"fetch"), "caps": caps[:rng.randrange(0, 3)], "fetch": a}]}
+
+    def gen_updreq_server(self, rng):
+        Z = hx(Z40)
+        cmds = []
+        pool = ["update", "create", "delete", "delete-tag", "stale"]
+        for k in rng.sample(pool, rng.choice([1, 1, 2, 3])):
+            if k == "update":
+                cmds.append([hx(b"refs/heads/dev"), HX(REPO.commit[3]), HX(REPO.commit[rng.choice([4, 2])])])
+            elif k == "create":
+                cmds.append([hx(rng.choice([b"refs/heads/new", b"refs/tags/t2", b"refs/heads/f/x"])), Z, HX(REPO.commit[rng.choice([1, 2, 3, 4])])])
+            elif k == "delete":
+                cmds.append([hx(b"refs/tags/lw"), HX(REPO.commit[1]), Z])
+            elif k == "delete-tag":
+                cmds.append([hx(b"refs/tags/v1"), HX(REPO.tag), Z])
+            else:
+                cmds.append([hx(b"refs/heads/main"), HX(REPO.commit[2]), HX(REPO.commit[3])])       # old id does not match: rejected by git
+        caps = caps_from(rng, RP_CAPS[2:], rng.randrange(0, 3)) + [[hx(b"report-status")]]
+        if any(c[2] == Z for c in cmds):
+            caps.append([hx(b"delete-refs")])
+        parts = [{"kind": "rt", "msg": "updreq", "caps": caps, "cmds": cmds, "shallows": []}]
+        if rng.random() < 0.4:
+            caps.append([hx(b"push-options")])
+            parts.append({"kind": "rt", "msg": "pushopts", "opts": [hx(rng.choice([b"ci.skip", b"a=b c", b"x", b"reviewer=alice"])) for _ in range(rng.randrange(0, 3))]})
+        return {"parts": parts}
+
+    def gen_report_client(self, rng):
+        # what the client pushes: main (an update), a deletion, a new branch; the statuses come from the value
+        refs = [b"refs/heads/main", b"refs/heads/gone", b"refs/heads/new"]
+        cmds = []
+        for r in refs:
+            st = rng.choice([b"ok", b"ok", b"non-fast-forward", b"hook declined", b"failed to lock"])
+            cmds.append([hx(r), hx(st)])
+        un = rng.choice([b"ok", b"ok", b"ok", b"unpacker error"])
+        adv = {"kind": "rt", "msg": "advrefs", "version": 0, "caps": [[hx(b"report-status")], [hx(b"delete-refs")], [hx(b"agent"), hx(b"go-git/6.x")]],
+               "refs": [[hx(b"refs/heads/gone"), HX(REPO.commit[2])], [hx(b"refs/heads/main"), HX(REPO.commit[3])], [hx(b"refs/heads/keep"), HX(REPO.commit[4])]],
+               "shallows": []}
+        return {"parts": [adv, {"kind": "rt", "msg": "report", "unpack": hx(un), "cmds": cmds}]}
+
+    def gen_fetch_client_v0(self, rng):
+        depth = rng.random() < 0.6
+        filt = (not depth) and rng.random() < 0.5
+        caps = [[hx(b"multi_ack")], [hx(b"ofs-delta")], [hx(b"shallow")], [hx(b"agent"), hx(b"go-git/6.x")]] + ([[hx(b"filter")]] if filt else [])
+        adv = {"kind": "rt", "msg": "advrefs", "version": 0, "caps": caps + [[hx(b"symref"), hx(b"HEAD:refs/heads/main")]],
+               "refs": [[hx(n), HX(h)] for n, h in REPO.advertised()], "shallows": []}
+        parts = [adv, {"kind": "rt", "msg": "srvresp", "acks": []}]
+        if depth:
+            parts.append({"kind": "rt", "msg": "shupd", "shallows": [HX(REPO.commit[4])], "unshallows": []})
+        return {"parts": parts, "depth": depth, "filter": filt}
+
+    def gen_fetch_client_v2(self, rng):
+        depth = rng.random() < 0.6
+        lsout = {"kind": "rt2", "msg": "lsout", "refs": [[hx(b"HEAD"), True, hx(b"refs/heads/main")]] +
+                 [[hx(n), False, HX(h)] for n, h in REPO.advertised() if n != "HEAD"]}
+        fo = {"kind": "rt2", "msg": "fetchout", "acks": None, "shallow": {"sh": [HX(REPO.commit[4])], "un": []} if depth else None,
+              "wanted": None, "uris": None, "packfile": True}
+        return {"parts": [self.capadv_value(rng), lsout, fo], "depth": depth}
+
+    # ------------------------------------------------------------ model side: G on every part
+    def model_expr(self, c):
+        es = []
+        for p in c["parts"]:
+            e = (V2.model_expr(self, p) if p["kind"] == "rt2" else Msgs.model_expr(self, p))
+            if e is None:
+                return None
+            es.append("(%s)" % e)
+        return "OList %s" % (coq_list(es) if es else "(@nil out)")
+
+    cmd_domain = staticmethod(Msgs.cmd_domain)
+    updreq_domain = staticmethod(Msgs.updreq_domain)
+
+    def nontrivial(self, c):
+        return True
+
+    # ------------------------------------------------------------ the oracle: git is the reference
+    def oracle(self, ctx, cases, impl, model):
+        from concurrent.futures import ThreadPoolExecutor
+        self.stats = {"scenarios": 0, "git_runs": 0, "skipped": 0, "spec_evals": 0, "spec_mismatches": [], "git_more_lenient": 0}
+        self.ctx = ctx
+        fails = {}
+        jobs = []
+        for c in cases:
+            r = impl.get(c["id"])
+            if r is None or r.get("panic"):
+                fails[c["id"]] = "no reply / panic"
+                continue
+            parts = (r.get("extra") or {}).get("parts") or []
+            if c["scn"] != "git-adv" and (len(parts) != len(c["parts"]) or any((p or {}).get("enc") != "ok" for p in parts)):
+                fails[c["id"]] = "a scenario value was not encoded: %s" % [((p or {}).get("enc"), (p or {}).get("err")) for p in parts]
+                continue
+            jobs.append((c, [bytes.fromhex(p["bytes"]) for p in parts]))
+        import tempfile
+        base = tempfile.mkdtemp(prefix="git", dir=ctx.tmp)          # fresh for every pass: scenarios write repositories
+
+        def run(job):
+            c, enc = job
+            d = os.path.join(base, "c%d" % c["id"])
+            os.makedirs(d, exist_ok=True)
+            try:
+                if "mut" in c:
+                    return c["id"], self.run_mutated(c, enc, d)
+                return c["id"], getattr(self, "run_" + c["scn"].replace("-", "_"))(c, enc, d)
+            except Exception as e:           # a fault of the driver is never an alarm
+                import traceback
+                return c["id"], {"skip": "driver fault: %s" % traceback.format_exc()[-600:]}
+
+        with ThreadPoolExecutor(max_workers=6) as ex:
+            results = dict(ex.map(run, jobs))
+        # S on the same bytes (one batch), compared with the expected value and with what git did
+        sq = []
+        for cid, res in results.items():
+            for (msg, data, want, label) in res.get("spec", []):
+                sq.append((cid, msg, data, want, label))
+        outs = ctx.coq_eval("From GoGit Require Import Model.PktLine Model.Packp Spec.GitProto.", [S_expr(m, d) for _, m, d, _, _ in sq], chunk=40) if sq else []
+        self.stats["spec_evals"] = len(sq)
+        for (cid, msg, data, want, label), o in zip(sq, outs):
+            got = None if o is None else G.parse_out(o)
+            if isinstance(want, tuple):                   # ("accepts?", what git did)
+                s_acc = isinstance(got, list) and got[:1] == ["ok"]
+                if s_acc and not want[1]:
+                    self.stats["spec_mismatches"].append({"case": cid, "what": label + ": S accepts, git refuses", "S": str(got)[:300], "git": want[2][:200], "bytes": data.hex()[:400]})
+                elif not s_acc and want[1]:
+                    self.stats["git_more_lenient"] += 1
+                else:
+                    self.stats["agree_on_mutated"] = self.stats.get("agree_on_mutated", 0) + 1
+                continue
+            if got != want:
+                self.stats["spec_mismatches"].append({"case": cid, "what": label, "S": str(got)[:300], "expected": str(want)[:300], "bytes": data.hex()[:400]})
+        for cid, res in results.items():
+            self.stats["scenarios"] += 1
+            self.stats["git_runs"] += res.get("runs", 0)
+            if res.get("skip"):
+                self.stats["skipped"] += 1
+                ctx.notes.append("C-git scenario skipped (case %s): %s" % (cid, res["skip"][:300]))
+            elif res.get("fail") and cid not in fails:
+                fails[cid] = res["fail"]
+        return fails
+
+    def finding_class(self, c, reason, reply):
+        return None
+
+    def extra(self, ctx, cases, impl, model):
+        st = dict(getattr(self, "stats", {}))
+        st["spec_mismatches"] = st.get("spec_mismatches", [])[:10]
+        return st
+
+    # ------------------------------------------------------------ helpers
+    def stub(self, d, steps):
+        plan = os.path.join(d, "plan.json")
+        with open(plan, "w") as f:
+            json.dump(steps, f)
+        from vf import core
+        return "ext::%s stub %s" % (os.path.join(core.HARNESS, "bin", "c35"), plan)
+
+    def put(self, d, name, data):
+        p = os.path.join(d, name)
+        with open(p, "wb") as f:
+            f.write(data)
+        return p
+
+    def get(self, d, name):
+        try:
+            with open(os.path.join(d, name), "rb") as f:
+                return f.read()
+        except OSError:
+            return b""
+
+    def decode_with_gogit(self, items):
+        """items: list of (kind, msg, bytes) -> harness replies (value JSON or None)"""
+        from vf import core
+        cs = [{"id": i, "kind": k, "msg": m, "hex": b.hex(), "chunks": []} for i, (k, m, b) in enumerate(items)]
+        rep = core.run_impl(self.go_cmd, cs)
+        return [((rep.get(i) or {}).get("extra") or {}).get("value") for i in range(len(cs))]
+
+    # ------------------------------------------------------------ edited encodings: does git take what S takes?
+    def run_mutated(self, c, enc, d):
+        import random
+        msg, k = self.MUT[c["scn"]]
+        data = mutate_lines(random.Random(c["mut"]), enc[k] + (b"0000" if c["scn"] == "v2-lsremote" else b""))
+        scn = c["scn"]
+        if scn == "adv-client":
+            url = self.stub(d, [{"send": self.put(d, "adv.bin", data)}, {"recv_all": os.path.join(d, "rest.bin")}])
+            rc, out, err = G.git(["ls-remote", url], d, timeout=150)
+        elif scn == "v2-lsremote":
+            url = self.stub(d, [{"send": self.put(d, "adv.bin", enc[0])}, {"recv_flush": os.path.join(d, "req.bin")},
+                                {"send": self.put(d, "ls.bin", data)}, {"recv_all": os.path.join(d, "rest.bin")}])
+            rc, out, err = G.git(["-c", "protocol.version=2", "ls-remote", url], d, timeout=150)
+        else:
+            repo = os.path.join(d, "repo.git")
+            REPO.write(repo, config="[uploadpack]\n\tallowFilter = true\n[receive]\n\tadvertisePushOptions = true\n")
+            if scn == "ulreq-server":
+                rc, out, err = G.git(["upload-pack", "--stateless-rpc", repo], d, inp=data + enc[1])
+            elif scn == "updreq-server":
+                empty_pack = b"PACK" + (2).to_bytes(4, "big") + (0).to_bytes(4, "big")
+                empty_pack += hashlib.sha1(empty_pack).digest()
+                rc, out, err = G.git(["receive-pack", "--stateless-rpc", repo], d, inp=data + (enc[1] if len(enc) > 1 else b"") + empty_pack)
+            else:
+                rc, out, err = G.git(["upload-pack", "--stateless-rpc", repo], d, inp=data, env={"GIT_PROTOCOL": "version=2"})
+        if rc is None:
+            return {"skip": "git timed out", "runs": 1}
+        msgtxt = err.decode("utf-8", "replace")
+        if rc != 0 and any(x in msgtxt for x in SEMANTIC):
+            return {"skip": "git refuses the edited request for what it means, not for its form: %s" % msgtxt[:120], "runs": 1}
+        if scn == "updreq-server" and rc == 0:
+            # receive-pack reports malformed commands it could frame in the status report; a "protocol error" is a refusal
+            pass
+        return {"runs": 1, "spec": [(msg, data, ("accepts?", rc == 0, msgtxt), "edited %s" % msg)]}
+
+    # ------------------------------------------------------------ scenarios
+    def run_adv_client(self, c, enc, d):
+        v = c["parts"][0]
+        wf, want = expected(v)
+        if not wf or not all(Msgs.git_refname_ok(bytes.fromhex(n)) for n, _ in want["refs"]):
+            return {"skip": "outside the C-git domain"}
+        url = self.stub(d, [{"send": self.put(d, "adv.bin", enc[0])}, {"recv_all": os.path.join(d, "rest.bin")}])
+        rc, out, err = G.git(["ls-remote", "--symref", url], d)
+        if rc is None:
+            return {"skip": "git ls-remote timed out", "runs": 1}
+        lines = out.decode("utf-8", "replace").splitlines()
+        got = sorted(tuple(l.split("\t")) for l in lines if not l.startswith("ref: "))
+        exp = sorted((h, bytes.fromhex(nm).decode()) for nm, h in want["refs"])
+        names = {bytes.fromhex(nm) for nm, _ in want["refs"]}
+        syms = sorted(l for l in lines if l.startswith("ref: "))
+        esyms = []
+        for e in v["caps"]:
+            if bytes.fromhex(e[0]) == b"symref":
+                for val in e[1:]:
+                    src, _, tgt = bytes.fromhex(val).partition(b":")
+                    if src in names:
+                        esyms.append("ref: %s\t%s" % (tgt.decode(), src.decode()))
+        res = {"runs": 1}
+        # S: the capability words, the references in wire order, the shallows
+        words = []
+        for e in v["caps"]:
+            words += [e[0]] if len(e) == 1 else [(bytes.fromhex(e[0]) + b"=" + bytes.fromhex(x)).hex() for x in e[1:]]
+        res["spec"] = [("advrefs", enc[0], ["ok", [["x" + w for w in words], [["x" + n, "x" + hx(h)] for n, h in want["refs"]], ["x" + hx(h) for h in want["shallows"]]]],
+                        "S(advrefs encoding) = the advertised value")]
+        if rc != 0:
+            res["fail"] = "git ls-remote rejects go-git's advertisement (rc=%d): %s" % (rc, err.decode("utf-8", "replace")[:300])
+        elif got != exp:
+            res["fail"] = "git ls-remote on go-git's advertisement lists %s, advertised %s" % (got[:8], exp[:8])
+        elif syms != sorted(esyms):
+            res["fail"] = "git ls-remote --symref reports %s, the symref capabilities say %s" % (syms, sorted(esyms))
+        return res
+
+    def run_v2_lsremote(self, c, enc, d):
+        cap, ls = c["parts"]
+        wf, want = expected2(ls)
+        if not wf:
+            return {"skip": "outside the C-git domain"}
+        url = self.stub(d, [{"send": self.put(d, "adv.bin", enc[0])}, {"recv_flush": os.path.join(d, "req.bin")},
+                            {"send": self.put(d, "ls.bin", enc[1] + b"0000")}, {"recv_all": os.path.join(d, "rest.bin")}])
+        rc, out, err = G.git(["-c", "protocol.version=2", "ls-remote", "--symref", url], d)
+        if rc is None:
+            return {"skip": "git ls-remote timed out", "runs": 1}
+        lines = out.decode("utf-8", "replace").splitlines()
+        got = sorted(tuple(l.split("\t")) for l in lines if not l.startswith("ref: "))
+        syms = sorted(l for l in lines if l.startswith("ref: "))
+        byname = {bytes.fromhex(n): bytes.fromhex(v).decode() for n, sym, v in ls["refs"] if not sym}
+        exp, esyms, srefs = [], [], []
+        for n, sym, v in want:
+            nb = bytes.fromhex(n)
+            if sym:
+                tgt = bytes.fromhex(v)
+                oid = byname.get(tgt)
+                if oid is not None and set(oid) != {"0"}:
+                    exp.append((oid, nb.decode()))
+                    esyms.append("ref: %s\t%s" % (tgt.decode(), nb.decode()))
+                    srefs.append(["x" + n, ["some", "x" + hx(oid)], ["some", "x" + v], "none"])
+                else:
+                    srefs.append(["x" + n, "none", ["some", "x" + v], "none"])
+            elif nb.endswith(b"^{}"):
+                exp.append((bytes.fromhex(v).decode(), nb.decode()))
+                srefs[-1][3] = ["some", "x" + v]
+            else:
+                exp.append((bytes.fromhex(v).decode(), nb.decode()))
+                srefs.append(["x" + n, ["some", "x" + v], "none", "none"])
+        res = {"runs": 1}
+        capw = [["x" + e[0], "none" if len(e) == 1 else ["some", "x" + b" ".join(bytes.fromhex(x) for x in e[1:]).hex()]] for e in cap["caps"]]
+        res["spec"] = [("capadv", enc[0], ["ok", capw], "S(capability advertisement) = the advertised capabilities"),
+                       ("lsout", enc[1] + b"0000", ["ok", srefs], "S(ls-refs output) = the references")]
+        # git's own ls-refs request, read by go-git
+        req = self.get(d, "req.bin")
+        val = self.decode_with_gogit([("dec2", "cmd-lsrefs", req)])[0]
+        if rc != 0:
+            res["fail"] = "git ls-remote (protocol v2) rejects go-git's capability advertisement / ls-refs output (rc=%d): %s" % (rc, err.decode("utf-8", "replace")[:300])
+        elif got != sorted(exp) or syms != sorted(esyms):
+            res["fail"] = "git ls-remote (v2) lists %s %s, go-git sent %s %s" % (got[:8], syms, sorted(exp)[:8], sorted(esyms))
+        elif not val or (val.get("v") or {}).get("command") != hx(b"ls-refs") or val.get("rest") != 0 or not ((val["v"].get("args") or {}).get("peel") and val["v"]["args"].get("symrefs")):
+            res["fail"] = "go-git does not read git's ls-refs request %s: %s" % (req[:200], val)
+        else:
+            a = val["v"]["args"]
+            capw = []
+            for e in val["v"]["caps"]:
+                capw.append(["x" + e[0], "none" if len(e) == 1 else ["some", "x" + b" ".join(bytes.fromhex(x) for x in e[1:]).hex()]])
+            res["spec"].append(("cmd-lsrefs", req, ["ok", ["x" + hx(b"ls-refs"), capw, [str(a["peel"]).lower(), str(a["symrefs"]).lower(), str(a["unborn"]).lower(), ["x" + p for p in a["prefixes"]]]]],
+                                "S(git's ls-refs request) = what go-git decoded"))
+        return res
+
+    def run_ulreq_server(self, c, enc, d):
+        u, hv = c["parts"]
+        wf, want = expected(u)
+        wf2, wanth = expected(hv)
+        if not wf or not wf2:
+            return {"skip": "outside the C-git domain"}
+        repo = os.path.join(d, "repo.git")
+        REPO.write(repo, config="[uploadpack]\n\tallowFilter = true\n")
+        wants = [hstr(h) for h in u["wants"]]
+        filt = bytes.fromhex(u["filter"]) or None
+        since = u["since"]
+        exp = REPO.expect_fetch(wants, wanth["haves"], deepen=u["deepen"] or None, since=since, nots=[bytes.fromhex(r).decode() for r in u["not"]],
+                                filt=filt, client_shallows=[hstr(h) for h in u["shallows"]],
+                                include_tag=any(bytes.fromhex(e[0]) == b"include-tag" for e in u["caps"]))
+        rc, out, err = G.git(["upload-pack", "--stateless-rpc", repo], d, inp=enc[0] + enc[1])
+        if rc is None:
+            return {"skip": "git upload-pack timed out", "runs": 1}
+        res = {"runs": 1}
+        capw = []
+        for e in want["caps"]:
+            capw += ["x" + e[0]] if len(e) == 1 else ["x" + (bytes.fromhex(e[0]) + b"=" + bytes.fromhex(x)).hex() for x in e[1:]]
+        res["spec"] = [("ulreq", enc[0], ["ok", [capw, ["x" + hx(h) for h in want["wants"]], ["x" + hx(h) for h in want["shallows"]],
+                                                   ["some", str(u["deepen"])] if u["deepen"] else "none", ["some", str(since)] if since is not None else "none",
+                                                   ["x" + r for r in u["not"]], ["some", "x" + u["filter"]] if u["filter"] else "none"]],
+                        "S(upload-request) = the request"),
+                       ("haves", enc[1], ["ok", [["x" + hx(h) for h in wanth["haves"]], "true"]], "S(upload-haves) = the haves")]
+        if exp is None:
+            return dict(res, skip="no expectation for this request")
+        if rc != 0:
+            return dict(res, fail="git upload-pack refuses go-git's upload-request (rc=%d): %s" % (rc, err.decode("utf-8", "replace")[:300]))
+        pk, pos = G.read_pkts(out)
+        sh = {p[8:48].decode() for n, p in pk if p.startswith(b"shallow ")}
+        un = {p[10:50].decode() for n, p in pk if p.startswith(b"unshallow ")}
+        common = {p[4:44].decode() for n, p in pk if p.startswith(b"ACK ") and p.rstrip().endswith((b"common", b"continue"))}
+        multi = any(bytes.fromhex(e[0]) in (b"multi_ack", b"multi_ack_detailed") for e in u["caps"])
+        nobj = G.pack_count(out)
+        if sh != exp["shallow"] or un != exp["unshallow"]:
+            res["fail"] = "git upload-pack answers shallow %s unshallow %s to go-git's request, the request means shallow %s unshallow %s" % (sorted(sh), sorted(un), sorted(exp["shallow"]), sorted(exp["unshallow"]))
+        elif multi and not (set(exp["common"]) <= common <= set(wanth["haves"])):
+            # (with multi_ack git also acknowledges haves it does not know once it could give up)
+            res["fail"] = "git upload-pack acknowledges %s, the haves in common are %s" % (sorted(common), sorted(exp["common"]))
+        elif nobj != exp["objects"]:
+            res["fail"] = "git upload-pack sends %s objects for go-git's request, the request asks for %s" % (nobj, exp["objects"])
+        return res
+
+    def ls_expect(self, ls):
+        pre = [bytes.fromhex(p).decode() for p in ls["prefixes"]]
+        out = []
+        for n, h in [("HEAD", REPO.refs[REPO.head])] + sorted(REPO.refs.items()):
+            if pre and not any(n.startswith(p) for p in pre):
+                continue
+            if n == "HEAD" and ls["symrefs"]:
+                out.append([hx(n), True, hx(REPO.head)])
+            else:
+                out.append([hx(n), False, hx(h)])
+            if ls["peel"] and n in REPO.peeled:
+                out.append([hx(n + "^{}"), False, hx(REPO.peeled[n])])
+        return out
+
+    def cmd_spec(self, v, kind, args_out):
+        capw = [["x" + e[0], "none" if len(e) == 1 else ["some", "x" + b" ".join(bytes.fromhex(x) for x in e[1:]).hex()]] for e in v["caps"]]
+        return ["ok", ["x" + v["command"], capw, args_out]]
+
+    def run_v2_server_lsrefs(self, c, enc, d):
+        v = c["parts"][0]
+        wf, want = expected2(v)
+        if not wf:
+            return {"skip": "outside the C-git domain"}
+        repo = os.path.join(d, "repo.git")
+        REPO.write(repo)
+        rc, out, err = G.git(["upload-pack", "--stateless-rpc", repo], d, inp=enc[0], env={"GIT_PROTOCOL": "version=2"})
+        if rc is None:
+            return {"skip": "git upload-pack timed out", "runs": 1}
+        ls = v["ls"]
+        res = {"runs": 1, "spec": [("cmd-lsrefs", enc[0], self.cmd_spec(v, "lsrefs", [str(ls["peel"]).lower(), str(ls["symrefs"]).lower(), str(ls["unborn"]).lower(), ["x" + p for p in ls["prefixes"]]]),
+                                    "S(ls-refs request) = the request")]}
+        if rc != 0:
+            return dict(res, fail="git upload-pack (v2) refuses go-git's ls-refs request (rc=%d): %s" % (rc, err.decode("utf-8", "replace")[:300]))
+        val = self.decode_with_gogit([("dec2", "lsout", out)])[0]
+        exp = self.ls_expect(ls)
+        if not val or val.get("v") != exp or val.get("rest") != 0:
+            res["fail"] = "git's answer to go-git's ls-refs request, read by go-git, is %s; the request %s asks for %s" % (val, ls, exp)
+        return res
+
+    def run_v2_server_fetch(self, c, enc, d):
+        v = c["parts"][0]
+        wf, want = expected2(v)
+        if not wf:
+            return {"skip": "outside the C-git domain"}
+        a = want["args"]
+        repo = os.path.join(d, "repo.git")
+        REPO.write(repo, config="[uploadpack]\n\tallowFilter = true\n")
+        filt = bytes.fromhex(a["filter"]) or None
+        exp = REPO.expect_fetch(a["wants"], a["haves"], deepen=a["deepen"] or None, since=a["since"], nots=[bytes.fromhex(r).decode() for r in a["not"]],
+                                filt=filt, client_shallows=a["shallows"], include_tag=a["flags"][3])
+        rc, out, err = G.git(["upload-pack", "--stateless-rpc", repo], d, inp=enc[0], env={"GIT_PROTOCOL": "version=2"})
+        if rc is None:
+            return {"skip": "git upload-pack timed out", "runs": 1}
+        names = ["done", "thin-pack", "no-progress", "include-tag", "ofs-delta", "deepen-relative", "wait-for-done"]
+        order = [0, 1, 2, 3, 4, 5, 6]
+        flags = ["x" + hx(names[i]) for i in order if a["flags"][i]]
+        # Encode writes deepen-relative after the shallow and deepen lines and wait-for-done last; S keeps the flags in wire order
+        res = {"runs": 1, "spec": [("cmd-fetch", enc[0], self.cmd_spec(v, "fetch", [["x" + hx(h) for h in a["wants"]], ["x" + hx(h) for h in a["haves"]], ["x" + hx(h) for h in a["shallows"]], flags,
+                                                                                     ["some", str(a["deepen"])] if a["deepen"] else "none", ["some", str(a["since"])] if a["since"] is not None else "none",
+                                                                                     ["x" + r for r in a["not"]], ["some", "x" + a["filter"]] if a["filter"] else "none"]),
+                                    "S(fetch request) = the request")]}
+        if exp is None:
+            return dict(res, skip="no expectation for this request")
+        if rc != 0:
+            return dict(res, fail="git upload-pack (v2) refuses go-git's fetch request (rc=%d): %s" % (rc, err.decode("utf-8", "replace")[:300]))
+        val = self.decode_with_gogit([("dec2", "fetchout", out)])[0]
+        if not val:
+            return dict(res, fail="go-git cannot read git's fetch response %s" % out[:300])
+        fo = val["v"]
+        done = a["flags"][0]
+        ready = bool(exp["common"]) and not done          # every want is reachable from a common commit or not: git says ready only when it can cut
+        got_common = set((fo["acks"] or {}).get("hashes", []))
+        sh = set((fo["shallow"] or {}).get("sh", []))
+        un = set((fo["shallow"] or {}).get("un", []))
+        if done or not a["haves"]:
+            # (a request without have lines is not negotiated: git sends the pack at once)
+            if fo["acks"] is not None:
+                return dict(res, fail="git sent acknowledgments although go-git's request said done / had no haves: %s" % fo)
+        else:
+            if fo["acks"] is None or got_common != set(exp["common"]):
+                return dict(res, fail="git acknowledges %s, the haves in common are %s" % (fo["acks"], exp["common"]))
+            if not fo["packfile"]:
+                return res                          # a negotiation round: nothing else to compare
+        if not fo["packfile"]:
+            return dict(res, fail="no packfile section in git's response to go-git's request: %s" % fo)
+        if sh != exp["shallow"] or un != exp["unshallow"]:
+            return dict(res, fail="git answers shallow-info %s / %s, the request means %s / %s" % (sorted(sh), sorted(un), sorted(exp["shallow"]), sorted(exp["unshallow"])))
+        nobj = G.pack_count(out)
+        if nobj != exp["objects"]:
+            return dict(res, fail="git sends %s objects for go-git's fetch request, the request asks for %s" % (nobj, exp["objects"]))
+        return res
+
+    def run_updreq_server(self, c, enc, d):
+        v = c["parts"][0]
+        wf, want = expected(v)
+        if not wf:
+            return {"skip": "outside the C-git domain"}
+        opts = c["parts"][1]["opts"] if len(c["parts"]) > 1 else None
+        repo = os.path.join(d, "repo.git")
+        hook = "#!/bin/sh\nn=${GIT_PUSH_OPTION_COUNT:-0}; i=0; : > %s/opts.out; while [ $i -lt $n ]; do eval \"printf '%%s\\n' \\\"\\$GIT_PUSH_OPTION_$i\\\"\" >> %s/opts.out; i=$((i+1)); done; cat > /dev/null\n" % (d, d)
+        REPO.write(repo, config="[receive]\n\tadvertisePushOptions = true\n\tdenyDeletes = false\n")
+        os.makedirs(os.path.join(repo, "hooks"), exist_ok=True)
+        hp = os.path.join(repo, "hooks", "pre-receive")
+        with open(hp, "w") as f:
+            f.write(hook)
+        os.chmod(hp, 0o755)
+        need_pack = any(set(hstr(nw)) != {"0"} for _, _, nw in v["cmds"])
+        empty_pack = b"PACK" + (2).to_bytes(4, "big") + (0).to_bytes(4, "big")
+        empty_pack += hashlib.sha1(empty_pack).digest()
+        inp = enc[0] + (enc[1] if opts is not None else b"") + (empty_pack if need_pack else b"")
+        rc, out, err = G.git(["receive-pack", "--stateless-rpc", repo], d, inp=inp)
+        if rc is None:
+            return {"skip": "git receive-pack timed out", "runs": 1}
+        capw = []
+        for e in want["caps"]:
+            capw += ["x" + e[0]] if len(e) == 1 else ["x" + (bytes.fromhex(e[0]) + b"=" + bytes.fromhex(x)).hex() for x in e[1:]]
+        res = {"runs": 1, "spec": [("updreq", enc[0], ["ok", [capw, [["x" + n, "x" + hx(o), "x" + hx(nw)] for n, o, nw in want["cmds"]], []]], "S(update-request) = the commands")]}
+        if opts is not None:
+            res["spec"].append(("pushopts", enc[1], ["ok", ["x" + o for o in opts]], "S(push-options) = the options"))
+        if rc != 0:
+            return dict(res, fail="git receive-pack refuses go-git's update-request (rc=%d): %s" % (rc, err.decode("utf-8", "replace")[:300]))
+        val = self.decode_with_gogit([("dec", "report", out)])[0]
+        if not val:
+            return dict(res, fail="go-git cannot read git's report-status %s" % out[:300])
+        # what git must have done with each command
+        exp = []
+        for n, o, nw in want["cmds"]:
+            name = bytes.fromhex(n).decode()
+            cur = REPO.refs.get(name, Z40)
+            exp.append([n, cur == o])
+        got = [[n, bytes.fromhex(st) == b"ok"] for n, st in val["cmds"]]
+        if bytes.fromhex(val["unpack"]) != b"ok" or got != exp:
+            res["fail"] = "git receive-pack reports %s (unpack %s) for go-git's commands %s, expected accept/reject %s" % (val["cmds"], bytes.fromhex(val["unpack"]), want["cmds"], exp)
+        elif opts is not None:
+            seen = self.get(d, "opts.out").decode("utf-8", "replace").splitlines()
+            if seen != [bytes.fromhex(o).decode() for o in opts]:
+                res["fail"] = "git's pre-receive hook saw the push options %s, go-git sent %s" % (seen, opts)
+        res["spec"].append(("report", out, ["ok", ["x" + val["unpack"], [["x" + n, "x" + st] for n, st in val["cmds"]]]], "S(git's report-status) = what go-git decoded"))
+        return res
+
+    def run_report_client(self, c, enc, d):
+        adv, rep = c["parts"]
+        wf, want = expected(rep)
+        if not wf:
+            return {"skip": "outside the C-git domain"}
+        client = os.path.join(d, "client.git")
+        REPO.write(client)
+        url = self.stub(d, [{"send": self.put(d, "adv.bin", enc[0])}, {"recv_flush": os.path.join(d, "req.bin")}, {"recv_all_n": 32, "to": os.path.join(d, "pack.bin")},
+                            {"send": self.put(d, "rep.bin", enc[1])}, {"recv_all": os.path.join(d, "rest.bin")}])
+        rc, out, err = G.git(["push", "--porcelain", url, "refs/heads/main:refs/heads/main", ":refs/heads/gone", "refs/heads/dev:refs/heads/new"], client)
+        if rc is None:
+            return {"skip": "git push timed out", "runs": 1}
+        res = {"runs": 1, "spec": [("report", enc[1], ["ok", ["x" + want["unpack"], [["x" + n, "x" + st] for n, st in want["cmds"]]]], "S(report-status) = the statuses")]}
+        req = self.get(d, "req.bin")
+        val = self.decode_with_gogit([("dec", "updreq", req)])[0]
+        expc = [[hx(b"refs/heads/main"), REPO.commit[3], REPO.commit[4]], [hx(b"refs/heads/gone"), REPO.commit[2], Z40], [hx(b"refs/heads/new"), Z40, REPO.commit[3]]]
+        if not val or sorted(val["cmds"]) != sorted(expc):
+            return dict(res, fail="go-git reads git's update-request %s as %s, git pushed %s" % (req[:300], val, expc))
+        capw = []
+        for e in val["caps"]:
+            capw += ["x" + e[0]] if len(e) == 1 else ["x" + (bytes.fromhex(e[0]) + b"=" + bytes.fromhex(x)).hex() for x in e[1:]]
+        res["spec"].append(("updreq", req, ["ok", [capw, [["x" + n, "x" + hx(o), "x" + hx(nw)] for n, o, nw in val["cmds"]], []]], "S(git's update-request) = what go-git decoded"))
+        lines = [l for l in out.decode("utf-8", "replace").splitlines() if "\t" in l]
+        unpack_ok = bytes.fromhex(rep["unpack"]) == b"ok"
+        got = {}
+        for l in lines:
+            f = l.split("\t")
+            got[f[1].split(":")[1]] = (f[0], f[2])
+        for n, st in rep["cmds"]:
+            name, st = bytes.fromhex(n).decode(), bytes.fromhex(st).decode()
+            flag, summary = got.get(name, ("?", ""))
+            if st == "ok" and unpack_ok:
+                if flag not in (" ", "-", "*", "+"):
+                    return dict(res, fail="go-git's report-status says ok for %s, git push shows %r %r" % (name, flag, summary))
+            elif st != "ok":
+                if flag != "!" or st not in summary:
+                    return dict(res, fail="go-git's report-status says ng %s %r, git push shows %r %r" % (name, st, flag, summary))
+        return res
+
+    def full_pack(self, d):
+        p = getattr(self, "_pack", None)
+        if p is None:
+            repo = os.path.join(d, "packsrc.git")
+            REPO.write(repo)
+            rc, out, err = G.git(["pack-objects", "--revs", "--stdout", "-q"], repo, inp=b"refs/heads/main\nrefs/tags/v1\n")
+            p = self._pack = out if rc == 0 else b""
+        return p
+
+    def run_fetch_client_v0(self, c, enc, d):
+        pack = self.full_pack(d)
+        if not pack:
+            return {"skip": "git pack-objects failed"}
+        client = os.path.join(d, "client.git")
+        REPO.empty(client)
+        depth = c["depth"]
+        # the client waits for the shallow-update before it goes on with "done"; with a filter only its request is looked at
+        steps = [{"send": self.put(d, "adv.bin", enc[0])}, {"recv_flush": os.path.join(d, "req.bin")}]
+        if depth:
+            steps.append({"send": self.put(d, "shupd.bin", enc[2])})
+        if not c["filter"]:
+            steps += [{"recv_pkts": 1, "to": os.path.join(d, "done.bin")}, {"send": self.put(d, "resp.bin", enc[1] + pack)}, {"recv_all": os.path.join(d, "rest.bin")}]
+        url = self.stub(d, steps)
+        args = ["fetch", "-q", "--no-tags"] + (["--depth", "1"] if depth else []) + (["--filter=blob:none"] if c["filter"] else []) + [url, "refs/heads/main:refs/heads/got"]
+        rc, out, err = G.git(args, client, timeout=150)
+        if rc is None:
+            return {"skip": "git fetch timed out", "runs": 2}
+        res = {"runs": 2, "spec": [("srvresp", enc[1], ["ok", []], "S(NAK) = no acknowledgement")]}
+        if depth:
+            res["spec"].append(("shupd", enc[2], ["ok", [["x" + HX(REPO.commit[4])], []]], "S(shallow-update) = the shallow commit"))
+        req = self.get(d, "req.bin")
+        val = self.decode_with_gogit([("dec", "ulreq", req)])[0]
+        if not c["filter"]:
+            if rc != 0:
+                return dict(res, fail="git fetch fails on go-git's advertisement / shallow-update / server-response (rc=%d): %s" % (rc, err.decode("utf-8", "replace")[:300]))
+            head = self.get(client, "refs/heads/got").decode().strip()
+            shallow = self.get(client, "shallow").decode().split()
+            if head != REPO.commit[4] or shallow != ([REPO.commit[4]] if depth else []):
+                return dict(res, fail="after git fetch: ref %s shallow %s, go-git announced %s / %s" % (head, shallow, REPO.commit[4], depth))
+        if not val or val["wants"] != [REPO.commit[4]] or val["deepen"] != (1 if depth else 0) or bytes.fromhex(val["filter"]) != (b"blob:none" if c["filter"] else b""):
+            return dict(res, fail="go-git reads git's upload-request %s as %s" % (req[:300], val))
+        capw = []
+        for e in val["caps"]:
+            capw += ["x" + e[0]] if len(e) == 1 else ["x" + (bytes.fromhex(e[0]) + b"=" + bytes.fromhex(x)).hex() for x in e[1:]]
+        res["spec"].append(("ulreq", req, ["ok", [capw, ["x" + hx(h) for h in val["wants"]], [], ["some", "1"] if depth else "none", "none", [], ["some", "x" + val["filter"]] if val["filter"] else "none"]],
+                            "S(git's upload-request) = what go-git decoded"))
+        return res
+
+    def run_fetch_client_v2(self, c, enc, d):
+        pack = self.full_pack(d)
+        if not pack:
+            return {"skip": "git pack-objects failed"}
+        client = os.path.join(d, "client.git")
+        REPO.empty(client)
+        depth = c["depth"]
+        resp = enc[2] + G.sideband(pack) + b"0000"
+        url = self.stub(d, [{"send": self.put(d, "adv.bin", enc[0])}, {"recv_flush": os.path.join(d, "req1.bin")}, {"send": self.put(d, "ls.bin", enc[1] + b"0000")},
+                            {"recv_flush": os.path.join(d, "req2.bin")}, {"send": self.put(d, "resp.bin", resp)}, {"recv_all": os.path.join(d, "rest.bin")}])
+        args = ["-c", "protocol.version=2", "fetch", "-q", "--no-tags"] + (["--depth", "1"] if depth else []) + [url, "refs/heads/main:refs/heads/got"]
+        rc, out, err = G.git(args, client, timeout=150)
+        if rc is None:
+            return {"skip": "git fetch timed out", "runs": 2}
+        fo = c["parts"][2]
+        sh = fo["shallow"]
+        res = {"runs": 2, "spec": [("fetchout", enc[2], ["ok", ["none", ["some", [["x" + h for h in sh["sh"]], []]] if sh else "none", "none", "none", "true"]], "S(fetch output) = the sections")]}
+        if rc != 0:
+            return dict(res, fail="git fetch (v2) fails on go-git's capability advertisement / ls-refs output / fetch output (rc=%d): %s" % (rc, err.decode("utf-8", "replace")[:300]))
+        head = self.get(client, "refs/heads/got").decode().strip()
+        shallow = self.get(client, "shallow").decode().split()
+        if head != REPO.commit[4] or shallow != ([REPO.commit[4]] if depth else []):
+            return dict(res, fail="after git fetch (v2): ref %s shallow %s, go-git announced %s / %s" % (head, shallow, REPO.commit[4], depth))
+        req = self.get(d, "req2.bin")
+        val = self.decode_with_gogit([("dec2", "cmd-fetch", req)])[0]
+        a = ((val or {}).get("v") or {}).get("args") or {}
+        if not val or val["v"]["command"] != hx(b"fetch") or a.get("wants") != [REPO.commit[4]] or a.get("deepen") != (1 if depth else 0) or not a["flags"][0] or val["rest"] != 0:
+            return dict(res, fail="go-git reads git's fetch request %s as %s" % (req[:300], val))
+        return res
+
+    def run_git_adv(self, c, enc, d):
+        repo = os.path.join(d, "repo.git")
+        REPO.write(repo)
+        rc0, a0, _ = G.git(["upload-pack", "--advertise-refs", repo], d)
+        rc1, a1, _ = G.git(["receive-pack", "--advertise-refs", repo], d)
+        rc2, a2, _ = G.git(["upload-pack", "--advertise-refs", repo], d, env={"GIT_PROTOCOL": "version=2"})
+        if None in (rc0, rc1, rc2) or rc0 or rc1 or rc2:
+            return {"skip": "git --advertise-refs failed or timed out", "runs": 3}
+        v0, v1, v2 = self.decode_with_gogit([("dec", "advrefs", a0), ("dec", "advrefs", a1), ("dec2", "capadv", a2)])
+        adv = [[hx(n), h] for n, h in REPO.advertised()]
+        res = {"runs": 3, "spec": []}
+        if not v0 or v0["refs"] != adv:
+            return dict(res, fail="go-git reads git upload-pack's advertisement as %s, the repository has %s" % (v0, adv))
+        if not v1 or v1["refs"] != [[hx(n), h] for n, h in sorted(REPO.refs.items())]:
+            return dict(res, fail="go-git reads git receive-pack's advertisement as %s" % v1)
+        if not v2 or v2.get("rest") != 0 or v2["v"]["version"] != 2 or [bytes.fromhex(e[0]) for e in v2["v"]["caps"]][:3] != [b"agent", b"ls-refs", b"fetch"]:
+            return dict(res, fail="go-git reads git's capability advertisement as %s" % v2)
+        for data, v in ((a0, v0), (a1, v1)):
+            capw = []
+            for e in v["caps"]:
+                capw += ["x" + e[0]] if len(e) == 1 else ["x" + (bytes.fromhex(e[0]) + b"=" + bytes.fromhex(x)).hex() for x in e[1:]]
+            res["spec"].append(("advrefs", data, ["ok", [capw, [["x" + n, "x" + hx(h)] for n, h in v["refs"]], []]], "S(git's advertisement) = what go-git decoded"))
+        capw = [["x" + e[0], "none" if len(e) == 1 else ["some", "x" + b" ".join(bytes.fromhex(x) for x in e[1:]).hex()]] for e in v2["v"]["caps"]]
+        res["spec"].append(("capadv", a2, ["ok", capw], "S(git's capability advertisement) = what go-git decoded"))
+        return res
+
+
+SUITES = [Msgs(), V2(), Git()]
